@@ -9,18 +9,21 @@ from .clientworld import build_mirror, client_opts, make_client, msg, part
 from .common import public_get
 
 EXPLANATION = (
-    "C06.KEY: the driver's dispatch is abstractly interpreted on an abstract driver (three vectors, two elements each) for new*Vector "
-    "messages with every combination of (property name existing / unknown, message kind matching / mismatching, children naming an "
-    "existing / unknown element): exactly the elements named by the children of a message whose kind matches the addressed property "
-    "receive set_value_from_message(child) - once each, in order, with their own child - and no other element, property or call occurs; "
-    "unknown names raise nothing. The element table is keyed by wire name, the vector table by vector name. C06.SUBMIT: client "
-    "Vector.submit is interpreted on an abstract client vector (one pending element, one not): one message of the vector's new_message_class "
-    "with device/name of the vector and exactly the pending elements' parts, pending values cleared, sent once. C06.CTOR: for each concrete "
-    "client element class the part built by to_new_message is checked against the bound part class's effective constructor signature "
-    "(required parameters supplied, keywords reach named parameters, BLOB parts carry base64 text, size and format of the pending value). "
-    "C06.COERCE: wherever a part attribute that is text on the parsed path (size) meets a number it passes through int()/float(); the two "
-    "BLOB consumers agree. C06.CONV: each driver-side set_value_from_message hands exactly the kind's conversion of the child's text to "
-    "set_value."
+    "C06.KEY: the driver's dispatch is abstractly interpreted on two drivers constructed in one interpreter state from an analysis-only "
+    'definition (DEVA with one property of each kind whose dictionary keys differ from the wire names, DEVB with a same-named property) for '
+    'new*Vector messages with every combination of (property name existing / unknown / only on the other driver, message kind matching / '
+    'mismatching, children naming existing / unknown / repeated elements): exactly the elements named by the children of a message whose kind '
+    'matches the addressed property of the addressed driver receive set_value_from_message(child) - once each, in order, with their own child - '
+    'and no other element, property or call occurs; unknown names raise nothing. C06.SUBMIT: client Vector.submit is interpreted on a mirror that '
+    'the real client code produced from definitions (two properties, two devices; pending values assigned through the public setter): one message '
+    "of the vector's new_message_class addressed with the vector's own device and name (labels differ from names), exactly the pending elements' "
+    'parts, pending values cleared (read through has_new_value), handed to the connection once. C06.CTOR: for each concrete client element class '
+    "the part built by to_new_message on such a mirrored element is checked against the bound part class's effective constructor signature "
+    "(required parameters supplied, keywords reach named parameters) and carries the element's own name and its own pending value (BLOB: base64 "
+    "text, size and format of that value, not a sibling's). C06.COERCE: wherever a part attribute that is text on the parsed path (size) meets a "
+    'number it passes through int()/float(); the two BLOB consumers agree. C06.CONV: each driver-side set_value_from_message, evaluated on a '
+    "constructed element, hands set_value exactly the kind's conversion of the child's text (numbers: str_to_num with the element's own declared "
+    'format; BLOB: from_base64(text, format)).'
 )
 NOT_DECIDED = "that converted values equal the sent ones for all values (C10 covers the number grammar, C08 the BLOB codec pairing)."
 ASSUMPTIONS = ["values arrive through the parser as text (str) attributes", "switch rule side effects are decided by C09"]
